@@ -163,3 +163,29 @@ Fixpoint run_steps_obs (steps : list step) (ts : list tok) (sp sc : Z) : list Z 
 (* the largest number of advance calls that can return without consuming a token *)
 Definition advance_slack : nat := Z.to_nat advance_limit + 1.
 Definition sync_fuel (ntokens : nat) : nat := (advance_slack + 1) * (ntokens + 1).
+
+(* ------------------------------------------------------------------ (e) if / for-phrase headers
+   control skeleton of parser.parseIfHeader and parser.parseForPhraseCond (bodies pinned by hash in
+   Gen/C13Parser.v: pinned_bodies).  tokens are abstracted to the classes the code tests; t0 = p.tok
+   on entry, t1 = p.tok after the init statement (if any), t2 = p.tok after the separator.
+   `stop` is token.LBRACE for the if header, RBRACK / RBRACE / FOR for the for-phrase condition.
+   result: (cond == nil before the final "make sure we have a valid AST" fix-up, p.error was called) *)
+Inductive tclass := KStop | KSemi | KVar | KOther.
+Definition tclass_eqb (a b : tclass) : bool :=
+  match a, b with KStop, KStop | KSemi, KSemi | KVar, KVar | KOther, KOther => true | _, _ => false end.
+
+Definition header_skeleton (t0 t1' t2 : tclass) : bool * bool :=
+  if tclass_eqb t0 KStop then (false, true)                    (* p.error("missing condition"); cond = Bad; return *)
+  else
+    let has_init := negb (tclass_eqb t0 KSemi) in               (* if p.tok != SEMICOLON { ... init = parseSimpleStmt } *)
+    let err0 := tclass_eqb t0 KVar in                           (* "var declaration not allowed" *)
+    let t1 := if has_init then t1' else t0 in                   (* no init statement: the token is still t0 *)
+    if negb (tclass_eqb t1 KStop) then
+      let semi_valid := tclass_eqb t1 KSemi in
+      let err1 := negb semi_valid in                            (* p.expect(token.SEMICOLON) on another token *)
+      let has_cond := negb (tclass_eqb t2 KStop) in             (* condStmt = parseSimpleStmt *)
+      let err2 := negb has_cond && semi_valid in                (* "missing condition" / "unexpected newline" *)
+      (negb has_cond, err0 || err1 || err2)
+    else
+      (* condStmt = init; init = nil *)
+      (negb has_init, err0).
